@@ -42,9 +42,9 @@ type Op struct {
 type FaultAction int
 
 const (
-	FaultNone      FaultAction = iota
-	FaultErr                   // error before any effect
-	FaultShortErr              // (writes) half of the bytes take effect, then error
+	FaultNone     FaultAction = iota
+	FaultErr                  // error before any effect
+	FaultShortErr             // (writes) half of the bytes take effect, then error
 )
 
 // ErrInjected is the error returned by injected faults.
